@@ -16,7 +16,10 @@
 //            for this reader, and - for a Volatile writer - written after the reader was matched
 //   hb     : every HEARTBEAT carries first == lowest retrievable number (last+1 if none), last == number
 //            of samples written
-// Bound: History in {KeepLast(1), KeepLast(2), KeepAll}; durability unspecified / Volatile; reader A
+//   keep   : cache cleaning removes a sample that a matched reliable reader has not acknowledged only if
+//            the History depth or a finite max_samples forces it out (at least that many newer samples)
+// Bound: History in {KeepLast(1), KeepLast(2), KeepAll}, ResourceLimits QoS absent, and KeepAll with
+//   max_samples = LENGTH_UNLIMITED; durability unspecified / Volatile; reader A
 //   (reliable, the requester) matched before the first or after the last write; reader B absent /
 //   best-effort / reliable acknowledging base 1 or last+1; n in 0..=3 samples, each written for everybody,
 //   for A or for B (all 3^n assignments) through process_writer_command (push mode); then B's ACKNACK and
@@ -73,6 +76,7 @@ mod verif_xc_writer_repair {
   #[derive(Clone, Debug)]
   struct Case {
     history: Hist,
+    max_samples: Option<i32>, // ResourceLimits QoS of the writer (None: absent; -1: LENGTH_UNLIMITED)
     volatile: bool,
     b: BKind,
     to: Vec<To>,      // to[i-1]: whom sample i is written for
@@ -172,6 +176,13 @@ mod verif_xc_writer_repair {
       };
       if c.volatile {
         qos = qos.durability(policy::Durability::Volatile);
+      }
+      if let Some(m) = c.max_samples {
+        qos = qos.resource_limits(policy::ResourceLimits {
+          max_samples: m,
+          max_instances: -1,
+          max_samples_per_instance: -1,
+        });
       }
       let ing = WriterIngredients {
         guid: writer_guid(),
@@ -440,7 +451,27 @@ mod verif_xc_writer_repair {
       w.handle_ack_nack(reader_guid(A).prefix, &acknack(A, c.a_ack0, &[], 1));
     }
     collect(h, c, "acknowledge", &w, &m)?;
+    let before: Vec<i64> = (1..=n).filter(|s| retrievable(&w, *s)).collect();
     w.handle_cache_cleaning();
+    // finite limits that may force a still needed sample out: History depth, max_samples (32 built in if absent)
+    let mut forcing: Vec<usize> = vec![];
+    if let Hist::KeepLast(d) = c.history {
+      forcing.push(d as usize);
+    }
+    match c.max_samples {
+      None => forcing.push(32),
+      Some(m) if m >= 0 => forcing.push(m as usize),
+      Some(_) => {}
+    }
+    for s in &before {
+      let needed = (!c.a_late && *s >= c.a_ack0) || matches!(c.b, BKind::Reliable { ack } if *s >= ack);
+      let newer = before.iter().filter(|t| *t > s).count();
+      assert!(
+        !needed || retrievable(&w, *s) || forcing.iter().any(|l| newer >= *l),
+        "XC-WITNESS label=hist.keep {:?} step=clean: sample {} is still unacknowledged by a matched reliable reader but cache cleaning removed it, although only {} newer samples were retained (before {:?}) and the finite History depth / resource limits are {:?}",
+        c, s, newer, before, forcing
+      );
+    }
     if c.a_late {
       match_reader(h, &mut w, &mut m, A, true);
     }
@@ -535,7 +566,7 @@ mod verif_xc_writer_repair {
       .collect()
   }
 
-  fn sweep(h: &mut Harness, history: Hist, st: &mut Stats) -> Result<(), Env> {
+  fn sweep(h: &mut Harness, history: Hist, max_samples: Option<i32>, st: &mut Stats) -> Result<(), Env> {
     for volatile in [false, true] {
       for n in 0..=3i64 {
         let mut bs = vec![BKind::Absent, BKind::BestEffort, BKind::Reliable { ack: 1 }];
@@ -549,7 +580,7 @@ mod verif_xc_writer_repair {
               for a_ack0 in ack0s {
                 for a_base in a_ack0..=n + 1 {
                   for a_req in subsets(a_base, n + 1) {
-                    let c = Case { history, volatile, b, to: to.clone(), a_late, a_ack0, a_base, a_req, timed: false };
+                    let c = Case { history, max_samples, volatile, b, to: to.clone(), a_late, a_ack0, a_base, a_req, timed: false };
                     run(h, &c, st)?;
                   }
                 }
@@ -583,23 +614,27 @@ mod verif_xc_writer_repair {
     }
   }
 
-  fn sweep_test(history: Hist, what: &str) {
+  fn sweep_test(history: Hist, max_samples: Option<i32>, what: &str) {
     let mut st = Stats::default();
-    let r = Harness::new().and_then(|mut h| sweep(&mut h, history, &mut st));
+    let r = Harness::new().and_then(|mut h| sweep(&mut h, history, max_samples, &mut st));
     report(what, r, &st, 20_000);
   }
 
   #[test]
   fn xc_repair_keep_last_1() {
-    sweep_test(Hist::KeepLast(1), "KeepLast(1)");
+    sweep_test(Hist::KeepLast(1), None, "KeepLast(1)");
   }
   #[test]
   fn xc_repair_keep_last_2() {
-    sweep_test(Hist::KeepLast(2), "KeepLast(2)");
+    sweep_test(Hist::KeepLast(2), None, "KeepLast(2)");
   }
   #[test]
   fn xc_repair_keep_all() {
-    sweep_test(Hist::KeepAll, "KeepAll");
+    sweep_test(Hist::KeepAll, None, "KeepAll");
+  }
+  #[test]
+  fn xc_repair_keep_all_unlimited() {
+    sweep_test(Hist::KeepAll, Some(-1), "KeepAll, max_samples unlimited");
   }
 
   // the same oracle with the repair driven by the real timer (nack_response_delay 0, tick 1 ms)
@@ -616,7 +651,7 @@ mod verif_xc_writer_repair {
         (Hist::KeepAll, vec![To::All], false, 1, vec![]),
       ] {
         for b in [BKind::Absent, BKind::Reliable { ack: to.len() as i64 + 1 }] {
-          let c = Case { history, volatile: false, b, to: to.clone(), a_late, a_ack0: 1, a_base, a_req: a_req.clone(), timed: true };
+          let c = Case { history, max_samples: None, volatile: false, b, to: to.clone(), a_late, a_ack0: 1, a_base, a_req: a_req.clone(), timed: true };
           run(&mut h, &c, &mut st)?;
         }
       }
